@@ -1662,6 +1662,15 @@ def race(ds: Sequence[Deferred[_T]]) -> Deferred[tuple[int, _T]]:
     # cancellation could propagate down to them.
     winner: Optional[Deferred[_T]] = None
 
+    # Cancel one of the individual actions.  A user supplied canceller may
+    # raise; like DeferredList.cancel, log that and carry on so that the
+    # remaining actions still get cancelled and the result still fires.
+    def cancelQuietly(d: Deferred[_T]) -> None:
+        try:
+            d.cancel()
+        except BaseException:
+            log.failure("Exception raised from user supplied canceller")
+
     # The cancellation function for the Deferred this function returns.
     def cancel(result: Deferred[_T]) -> None:
         # If it is cancelled then we cancel all of the Deferreds for the
@@ -1669,7 +1678,7 @@ def race(ds: Sequence[Deferred[_T]]) -> Deferred[tuple[int, _T]]:
         # delivering any of their results anywhere.  We don't have to fire
         # `result` because the Deferred will do that for us.
         for d in to_cancel:
-            d.cancel()
+            cancelQuietly(d)
 
     # The Deferred that this function will return.  It will fire with the
     # index and output of the action that completes first, or errback if all
@@ -1695,7 +1704,7 @@ def race(ds: Sequence[Deferred[_T]]) -> Deferred[tuple[int, _T]]:
             # Cancel the rest.
             for d in to_cancel:
                 if d is not winner:
-                    d.cancel()
+                    cancelQuietly(d)
 
             # Fire our Deferred
             final_result.callback((this_index, this_output))
